@@ -179,9 +179,7 @@ def parse_query(q):
             flags.add("no_equals")
             continue
         k, v = chunk.split("=", 1)
-        if v == "":
-            flags.add("blank_value")
-            continue
+        # (an empty value is a value: 'k=' asks for k = '')
         if any(c in chunk for c in "%+;#"):
             flags.add("url_meta")
         pairs.append((k, v))
